@@ -224,7 +224,7 @@ def run_conc(ctx, res, thorough):
     exe = build()
     model = C.build_model(ID)
     rng = ctx.rng
-    ncases = 3000 if thorough else 400
+    ncases = 12000 if thorough else 1500
     cases = corpus()
     for _ in range(ncases):
         cases.append(gen_case(rng))
